@@ -205,6 +205,12 @@ func (g *game) Pass(playerIdx int) (*pokerface.GameState, error) {
 		return g.GetGameState(), err
 	}
 
+	// the backend silently ignores a pass that is not allowed (it returns the
+	// unchanged state without an error), so it has to be refused here
+	if !g.gs.HasAction(playerIdx, "pass") {
+		return g.GetGameState(), ErrGameInvalidAction
+	}
+
 	gs, err := g.backend.Pass(g.gs)
 	if err != nil {
 		return g.GetGameState(), err
